@@ -9,8 +9,9 @@
 //!            | (1 doc ver (change ...))    textDocument/didChange
 //!     change = (0 text)                    full text (no range)
 //!            | (1 sl sc el ec text)        range (UTF-16 positions) + replacement
-//! One server is started per process and reused for all histories (each history uses its own URIs); it is
-//! replaced after a panic.
+//! One server is started per process and reused for all histories (each history uses its own URIs). A panic in a
+//! handler ends that history; the server is kept (its locks are released by unwinding, and the real message loop
+//! also carries on with the same file cache) and replaced only after every 20th panic.
 #[allow(dead_code)]
 #[path = "../../common/sx.rs"]
 mod sx;
@@ -27,6 +28,7 @@ const WS: &str = "/tmp/ergv-textsync-ws";
 
 thread_local! {
     static CLIENT: RefCell<Option<FakeClient<Server>>> = RefCell::new(None);
+    static PANICS: RefCell<u32> = RefCell::new(0);
 }
 
 fn new_client() -> FakeClient<Server> {
@@ -120,8 +122,13 @@ fn history(case: &Sx) -> Sx {
                         "panic".to_string()
                     };
                     out.push(Sx::L(vec![Sx::Z(-999), Sx::from_str_cp(&msg)]));
-                    // the server's state after an unwound handler is unspecified: start a new one
-                    *slot = None;
+                    let n = PANICS.with(|p| {
+                        *p.borrow_mut() += 1;
+                        *p.borrow()
+                    });
+                    if n % 20 == 0 {
+                        *slot = None;
+                    }
                     break;
                 }
             }
